@@ -26,6 +26,7 @@ func init() {
 		"sync.runtime_registerPoolCleanup", "sync.runtime_procUnpin",
 		"sync.runtime_Semrelease", "sync.runtime_Semacquire", "sync.runtime_SemacquireMutex", "sync.runtime_SemacquireRWMutex", "sync.runtime_SemacquireRWMutexR",
 		"sync.throw", "sync.fatal",
+		"crypto/internal/boring/sig.StandardCrypto", "crypto/internal/boring/sig.BoringCrypto", "crypto/internal/boring/sig.FIPSOnly",
 	} {
 		externals[n] = nop
 	}
